@@ -536,6 +536,14 @@ def joinRow (names : List (String × String)) (left : Row) : Row → Option Row
     | none => none
     | some u => joinRow names (rowSet u v left) rest
 
+/-- `for right_row in right_category_rows[category_key]: join_row = …; data.append(join_row)` -/
+def joinRows (names : List (String × String)) (left : Row) : List Row → Option (List Row)
+  | [] => some []
+  | r :: rs =>
+    match joinRow names left r with
+    | none => none
+    | some j => (joinRows names left rs).map (j :: ·)
+
 /-- `for right_row in right_data: key = _bucket_key(evaluate_expression(right_expression, …, right_row)); …append` -/
 def bucketRowsM (eval : Row → Option PValue) : Table → List (Key × List Row) → Option (List (Key × List Row))
   | [], acc => some acc
@@ -554,7 +562,7 @@ def joinLoop (evalL : Row → Option PValue) (names : List (String × String)) (
     | some v =>
       match bucketLookup (bucketKey v) buckets with
       | some rightRows =>
-        match rightRows.mapM (joinRow names leftRow) with
+        match joinRows names leftRow rightRows with
         | none => none
         | some joined => joinLoop evalL names buckets isLeftJoin rest (data ++ joined)
       | none => joinLoop evalL names buckets isLeftJoin rest (if !isLeftJoin then data ++ [leftRow] else data)
